@@ -43,6 +43,9 @@ REGISTRY.add(Contract(
         "implies(acc(flags) == 1 and app(flags), result == 'a')",
         "implies(acc(flags) == 2 and not app(flags), result == 'r+')",
         "implies(acc(flags) == 2 and app(flags), result == 'a+')",
+        # access mode 3 (both bits; Linux: ioctl-only descriptor) reads as read-write, the superset of what its bits name
+        "implies(acc(flags) == 3 and not app(flags), result == 'r+')",
+        "implies(acc(flags) == 3 and app(flags), result == 'a+')",
         "result == 'r' or result == 'w' or result == 'a' or result == 'r+' or result == 'a+'",
     ],
     raises={},   # no flag word may make it fail (open_files() must not fail for a live process)
